@@ -7,7 +7,8 @@ From PV Require Import Base.Bytes Base.Sexp AVM.Syntax AVM.Machine Src.Expr Src.
   Comp.Blocks Comp.Lower Comp.Passes Comp.GraphSem Comp.LinearSem Comp.LinkedSem Comp.Compile Comp.Assemble
   Proofs.LowerShape Proofs.NormalizeLowered Proofs.SlotComposeAssign Proofs.FlattenCorrect
   CallX.Denote CallX.EndToEnd
-  Proofs.CallComposeLink Proofs.CallComposeMain Proofs.CallComposeLayout Proofs.CallComposeProgram.
+  Proofs.CallComposeLink Proofs.CallComposeMain Proofs.CallComposeLayout Proofs.CallComposeSpill
+  Proofs.CallComposeSpillPass Proofs.CallComposeProgram.
 Import ListNotations.
 Local Open Scope string_scope.
 Local Open Scope list_scope.
@@ -78,13 +79,13 @@ Proof. vm_compute. reflexivity. Qed.
 Example program_linked_example :
   compile_components ex_opts ex_modes ex_prog = COk ex_comps /\
   ex_comps = CPragma 6 :: ex_L /\
-  denote_k ex_opts ex_ctx (look_of ex_asg) [] [ex_f; ex_g] 100 None 100 (root_ast ex_main) [] ex_st0 = DExit (VI 24) ex_final /\
+  denote_k ex_opts ex_ctx (look_of ex_asg) [] [ex_f; ex_g] idW 100 None 100 (root_ast ex_main) [] ex_st0 = DExit (VI 24) ex_final /\
   pstar ex_lenv ex_L (PAt [] 0 [] ex_st0) (PExit (VI 24) ex_final) /\
   prun 400 ex_lenv ex_L (PAt [] 0 [] ex_st0) = PExit (VI 24) ex_final.
 Proof.
   assert (EC : compile_components ex_opts ex_modes ex_prog = COk ex_comps) by (vm_compute; reflexivity).
   split; [exact EC|]. split; [vm_compute; reflexivity|].
-  assert (ED : denote_k ex_opts ex_ctx (look_of ex_asg) [] [ex_f; ex_g] 100 None 100 (root_ast ex_main) [] ex_st0
+  assert (ED : denote_k ex_opts ex_ctx (look_of ex_asg) [] [ex_f; ex_g] idW 100 None 100 (root_ast ex_main) [] ex_st0
                = DExit (VI 24) ex_final) by (vm_compute; reflexivity).
   split; [exact ED|]. split; [|vm_compute; reflexivity].
   destruct (program_linked_correct ex_opts ex_modes ex_prog ex_comps EC eq_refl eq_refl)
@@ -109,7 +110,7 @@ Proof.
   specialize (T2 100 100 [] ex_st0 (LExit (VI 24) ex_final)).
   rewrite EL in T2.
   change (fs_subs _) with [ex_f; ex_g] in T2.
-  match type of T2 with halt_of (denote_k _ _ ?lk _ _ _ _ _ _ _ _) = _ -> _ =>
+  match type of T2 with halt_of (denote_k _ _ ?lk _ _ _ _ _ _ _ _ _) = _ -> _ =>
     change lk with (look_of ex_asg) in T2 end.
   change (p_main ex_prog) with ex_main in T2.
   rewrite ED in T2. exact (T2 eq_refl Logic.I).
@@ -125,3 +126,82 @@ Example program_denote_c_example :
               scratch_get (s_scratch st') 0 = scratch_get (s_scratch ex_final) 0 /\
               scratch_get (s_scratch st') 3 = VI 0 /\ scratch_get (s_scratch ex_final) 3 = VI 12.
 Proof. eexists. split; [vm_compute; reflexivity|]. vm_compute. repeat split; reflexivity. Qed.
+
+(* ---- recursion with a live local: fact(n) = if n == 0 then 1 else (x := n; fact(n - 1) * x) ----
+   x and the parameter are local slots of fact; the recursive call is wrapped in spill code. *)
+Definition ex_fact : routine :=
+  mkRoutine 1 "fact" TUint [(false, 300%N)]
+    (ESeq [ EIf (EOp O_eq [] TUint [EParam 0; x_int 0]) (EReturn (Some (x_int 1))) None;
+            x_st 310 (EParam 0);
+            EReturn (Some (ENary O_mul TUint [ECall 1 TUint [EOp O_minus [] TUint [EParam 0; x_int 1]]; x_ld 310])) ]) None.
+Definition rec_main : expr := EReturn (Some (ENary O_add TUint [ECall 1 TUint [x_int 4]; x_int 1])).
+Definition rec_prog : prog := mkProgram rec_main [ex_fact] [].
+Definition rec_comps : list comp :=
+  match compile_components ex_opts ex_modes rec_prog with COk c => c | CErr _ => [] end.
+Definition rec_L : list comp := tl rec_comps.
+Definition rec_asg : list (N * N) := match model_assignment ex_opts rec_prog with COk a => a | CErr _ => [] end.
+Definition rec_lenv : Src.Denote.denv := lenv ex_ctx (look_of rec_asg) [] [ex_fact].
+Definition rec_final : mstate :=
+  match prun 600 rec_lenv rec_L (PAt [] 0 [] ex_st0) with PExit _ st => st | _ => ex_st0 end.
+
+Example rec_text : assemble_all rec_comps =
+  Some ["#pragma version 6"; "int 4"; "callsub fact_0"; "int 1"; "+"; "return"; "
+// fact
+fact_0:"; "store 0"; "load 0"; "int 0"; "=="; "bz fact_0_l2"; "int 1"; "retsub"; "fact_0_l2:"; "load 0"; "store 1";
+        "load 0"; "int 1"; "-"; "load 0"; "load 1"; "uncover 2"; "callsub fact_0"; "cover 2"; "store 1"; "store 0";
+        "load 1"; "*"; "retsub"].
+Proof. vm_compute. reflexivity. Qed.
+
+Definition rec_frs : list flat_routine :=
+  match compile_rec 2 ex_opts rec_prog None rec_main [] with
+  | COk crs => match assign_slots rec_prog crs with
+               | COk (crs', _, _) => match fold_right flat_step (COk []) crs' with COk frs => frs | CErr _ => [] end
+               | CErr _ => [] end
+  | CErr _ => [] end.
+Definition rec_locals : list (option N * list N) :=
+  match model_assignment_locals ex_opts rec_prog with COk (_, l) => l | CErr _ => [] end.
+Definition rec_W := W_spill ex_opts ex_ctx (look_of rec_asg) [] [ex_fact] 6 rec_prog rec_frs rec_locals.
+
+(* the hypotheses of [program_linked_correct_spill] hold; its conclusion is a run of the linked program with
+   the spill code to [return] with 25 = 4! + 1; the source-side semantics [denote_k] (a re-entrant call =
+   the outcome of its spill segment) and the fuelled runner agree with it *)
+Example program_linked_recursion_example :
+  compile_components ex_opts ex_modes rec_prog = COk rec_comps /\
+  rec_comps = CPragma 6 :: rec_L /\
+  denote_k ex_opts ex_ctx (look_of rec_asg) [] [ex_fact] rec_W 100 None 100 (root_ast rec_main) [] ex_st0
+    = DExit (VI 25) rec_final /\
+  pstar rec_lenv rec_L (PAt [] 0 [] ex_st0) (PExit (VI 25) rec_final) /\
+  prun 600 rec_lenv rec_L (PAt [] 0 [] ex_st0) = PExit (VI 25) rec_final.
+Proof.
+  assert (EC : compile_components ex_opts ex_modes rec_prog = COk rec_comps) by (vm_compute; reflexivity).
+  split; [exact EC|]. split; [vm_compute; reflexivity|].
+  assert (ED : denote_k ex_opts ex_ctx (look_of rec_asg) [] [ex_fact] rec_W 100 None 100 (root_ast rec_main) [] ex_st0
+               = DExit (VI 25) rec_final) by (vm_compute; reflexivity).
+  split; [exact ED|]. split; [|vm_compute; reflexivity].
+  destruct (program_linked_correct_spill ex_opts ex_modes rec_prog rec_comps EC eq_refl eq_refl)
+    as (crs & crs' & locals & asg & frs & frs2 & HR & HA & HF & HS & HC & T).
+  { intros r [<-|[]]; reflexivity. }
+  vm_compute in HR. injection HR as <-.
+  vm_compute in HA. injection HA as <- <- <-.
+  vm_compute in HF. injection HF as <-.
+  vm_compute in HS. injection HS as <-.
+  match type of T with _ -> let L := ?l in _ => set (L0 := l) in T end.
+  assert (EL : L0 = rec_L) by (vm_compute; reflexivity).
+  cbv zeta in T.
+  match type of T with ?A -> _ => assert (HV : A) end.
+  { apply requested_valid_of_table. intros u i []. }
+  specialize (T HV).
+  match type of T with ?A -> _ => assert (ND : A) end.
+  { apply nodup_b_sound. vm_compute. reflexivity. }
+  specialize (T ND).
+  match type of T with ?A -> _ => assert (LK : A) end.
+  { vm_compute. reflexivity. }
+  destruct (T LK ex_ctx []) as [_ T2].
+  specialize (T2 100 100 [] ex_st0 (LExit (VI 25) rec_final)).
+  rewrite EL in T2.
+  change (fs_subs _) with [ex_fact] in T2.
+  change (p_main rec_prog) with rec_main in T2.
+  match type of T2 with halt_of ?d = _ -> _ =>
+    change d with (denote_k ex_opts ex_ctx (look_of rec_asg) [] [ex_fact] rec_W 100 None 100 (root_ast rec_main) [] ex_st0) in T2 end.
+  rewrite ED in T2. exact (T2 eq_refl Logic.I).
+Qed.
